@@ -90,6 +90,17 @@ def gen(rng, tier, n):
             root.set("$dynamicAnchor", "n")
             root.get("$defs").kvs.append(("dyn", Obj([("$dynamicRef", "#n")])))
         insts = [gen_inst(rng, root) for _ in range(5)] + [Obj()]
+        if rng.random() < 0.1:
+            # a Loader document reached through a $ref of the root: ITS defaults (here: an ill-typed one in an unreferenced $defs entry,
+            # and a well-typed one) are not "defaults in the root schema tree" — ValidateDefaults must not depend on them, and
+            # ApplyDefaults only follows `properties` of the root tree
+            uri = "http://x.test/dflt/ext.json"
+            ext = Obj([("type", ["object", "number", "string", "null", "array", "boolean"]),
+                       ("$defs", Obj([("unit", Obj([("type", "number"), ("default", "not a number")])), ("ok", Obj([("default", Num("1"))]))])),
+                       ("properties", Obj([("zz", Obj([("default", Num("7"))]))]))])
+            root.get("$defs").kvs.append(("ext", Obj([("$ref", uri)])))
+            ops.append({"op": "defaults", "args": {"schema": root, "insts": insts, "docs": [[uri, ext]], "loader": True}, "meta": {"remote": True}})
+            continue
         ops.append({"op": "defaults", "args": {"schema": root, "insts": insts}, "meta": {}})
     return ops
 
